@@ -596,3 +596,80 @@ def oracle_call(line, out):
     if c["ins"] != (diff < 0):
         return f"type insertion={c['ins']} but Length {diff}"
     return None
+
+
+# ------------------------------------------------------------------ C19
+def parse_alset(s):
+    out = []
+    for e in [t for t in s.split(";") if t]:
+        k, ps = e.split("@")
+        q, r = k.split(":")
+        out.append((int(q), int(r), [tuple(int(x) for x in t.split(":")) for t in ps.split(",") if t]))
+    return out
+
+
+def parse_comparison(out):
+    kv = dict(t.split("=", 1) for t in out.split(" ") if "=" in t)
+    rows = []
+    for e in [t for t in kv.get("ROWS", "").split(";") if t]:
+        f = e.split(":")
+        rows.append({"q": int(f[0]), "r": int(f[1]), "type": f[2], "ident": frac(f[3]), "cov1": frac(f[4]), "cov2": frac(f[5]),
+                     "rest": ":".join(f[6:])})
+    return {k: int(kv[k]) for k in ("ov", "non", "first", "second")}, rows
+
+
+def oracle_compare(line, out):
+    op, kv = kv_of(line)
+    if out.startswith("ERR"):
+        return f"exception {out}"
+    A, B = parse_alset(kv.get("A", "")), parse_alset(kv.get("B", ""))
+    cnt, rows = parse_comparison(out)
+    k1, k2 = {(q, r) for q, r, _ in A}, {(q, r) for q, r, _ in B}
+    if cnt["ov"] + cnt["non"] + cnt["first"] + cnt["second"] != len(k1 | k2):
+        return f"counters sum to {sum(cnt.values())}, distinct keys {len(k1 | k2)}"
+    if cnt["first"] != len(k1 - k2) or cnt["second"] != len(k2 - k1):
+        return "only-counts are not the set differences"
+    if sorted((r["q"], r["r"]) for r in rows) != sorted(k1 | k2):
+        return "a key is classified not exactly once"
+    for r in rows:
+        for f in ("ident", "cov1", "cov2"):
+            if not (0 <= r[f] <= 1):
+                return f"{f} = {r[f]} outside [0,1]"
+    if kv.get("A", "") == kv.get("B", ""):
+        if cnt["first"] or cnt["second"] or cnt["non"]:
+            return "self-comparison has exclusive or non-overlapping keys"
+        for r in rows:
+            if r["ident"] != 1 or r["cov1"] != 1 or r["cov2"] != 1 or r["rest"] != "/":
+                return f"self-comparison of key ({r['q']},{r['r']}) is not identity 1 / coverage 1 / no exclusive pairs"
+    return None
+
+
+def oracle_compare_swap(line, out, line2, out2):
+    c1, r1 = parse_comparison(out)
+    c2, r2 = parse_comparison(out2)
+    if (c1["first"], c1["second"], c1["ov"], c1["non"]) != (c2["second"], c2["first"], c2["ov"], c2["non"]):
+        return "swapping the inputs does not swap the first/second counts (or changes the both-counts)"
+    d2 = {(r["q"], r["r"]): r for r in r2}
+    for r in r1:
+        s = d2[(r["q"], r["r"])]
+        if r["type"] == "B" and (r["cov1"], r["cov2"]) != (s["cov2"], s["cov1"]):
+            return f"swapping does not swap the coverages of key ({r['q']},{r['r']})"
+    return None
+
+
+def check_matcher_contract(mtable):
+    """the three-clause contract of Props/Defs.MatcherOK on the values recorded from real difflib"""
+    vals = {}
+    for e in [t for t in mtable.split(";") if t]:
+        k, m = e.split(">")
+        a, b = k.split("|")
+        vals[(a, b)] = int(m)
+    n = lambda s: len([t for t in s.split(",") if t])
+    for (a, b), m in vals.items():
+        if m > min(n(a), n(b)):
+            return f"matched size {m} exceeds min length"
+        if a == b and m != n(a):
+            return f"M(a,a) = {m} != |a| = {n(a)}"
+        if (b, a) in vals and (m > 0) != (vals[(b, a)] > 0):
+            return "M(a,b) > 0 but M(b,a) = 0"
+    return None
